@@ -101,3 +101,24 @@ package state
 //@   ensures [objectRestored] has(s.stateObjects, ch.prev.address) && s.stateObjects[ch.prev.address] == ch.prev
 //@   ensures [destructMarkCleared] !ch.prevdestruct ==> !has(s.stateObjectsDestruct, ch.prev.address)
 //@   ensures [destructMarkKept] ch.prevdestruct ==> has(s.stateObjectsDestruct, ch.prev.address) == old(has(s.stateObjectsDestruct, ch.prev.address))
+
+// ---------------------------------------------------------------- C08: a copy of the state is independent of the original
+// Database.CopyTrie returns a different trie object (cachingDB.CopyTrie copies the secure trie).
+//@ trusted func (d Database) CopyTrie(t Trie) (r Trie)
+//@   ensures t != nil ==> r != nil && r != t
+//@ func (s Storage) Copy() (r Storage)
+//@   for C08
+//@   ensures [ownMap] fresh(r)
+//@   loop 1:
+//@     invariant fresh(cpy)
+// deepCopy shares nothing mutable with the original: its own object, its own trie, its own three
+// storage maps; the scalar account fields are copied.
+//@ func (s *stateObject) deepCopy(db *StateDB) (r *stateObject)
+//@   for C08
+//@   requires s != nil && db != nil
+//@   modifies *
+//@   ensures [ownObject] r != nil && r != s && !old(allocated(r))
+//@   ensures [ownTrie] old(s.trie) != nil ==> r.trie != old(s.trie)
+//@   ensures [ownStorage] r.dirtyStorage != old(s.dirtyStorage) && r.originStorage != old(s.originStorage) && r.pendingStorage != old(s.pendingStorage)
+//@   ensures [ownStorageIsNew] fresh(r.dirtyStorage) && fresh(r.originStorage) && fresh(r.pendingStorage)
+//@   ensures [scalarsCopied] r.address == old(s.address) && r.suicided == old(s.suicided) && r.dirtyCode == old(s.dirtyCode) && r.deleted == old(s.deleted) && r.data.Nonce == old(s.data.Nonce)
